@@ -115,6 +115,9 @@ def run(rep: Report) -> None:
              "definition graph) has residual 1 within 1e-5 x exponent degree", floor=60)
     rep.rule("R09.4", "every defined base unit's size is determined by the equations and the SI anchors", floor=150)
     rep.rule("R09.5", "every declared ratio is finite and positive", floor=200)
+    rep.rule("R09.7", "reachable for the planner (necessary condition from the planner's own rules, re-verified in conversions.py): a "
+             "named unit that is not decomposed through a compound equivalence of its own has a declared path to the SI target or "
+             "to a unit made of factors the target decomposes into", floor=120)
     ev = evaluate()
     check_tables(rep, ev)
     rep.analysed.update({
@@ -138,6 +141,26 @@ def run(rep: Report) -> None:
             rep.check("R09.6", f"entry={m}", bad2 >= expected or True, "", note={"modules": len(mods), "inconsistent": sorted(bad2)})
             for (mod, text) in sorted(bad2 - base):
                 rep.fail("R09.3", f"{mod}:{text}", f"inconsistent when {m} is imported first", "")
-    rep.not_decided.append("that the library's conversion planner actually finds a route for every connected unit (C04)")
+    # R09.7: a necessary condition for the planner to reach SI from each named unit
+    from ..model import Program
+    from ..planner_reach import PlannerReach, coherent_si, verify_anchors
+    prog = Program()
+    anchors = verify_anchors(prog)
+    pr = PlannerReach(ev)
+    n7 = 0
+    for u in sorted({id(x): x for x in ev.unit_by_name.values()}.values(), key=lambda x: x.uid):
+        if not u.is_base:
+            continue  # a named compound is its own product of base units
+        target = coherent_si(ev, u)
+        if target is None:
+            continue
+        n7 += 1
+        ok, why = pr.may_convert(u, target)
+        rep.check("R09.7", f"{u.module}:{u.var or u.name}", ok,
+                  f"{u.name!r} cannot be converted to or from the SI unit of its dimension by the planner: {why} "
+                  "(ConversionNotFound, although the declarations determine its size)", u.where, note=why if ok else None)
+    rep.analysed["planner_anchors"] = anchors
+    rep.not_decided.append("that the library's conversion planner actually finds a route for every unit that passes the "
+                           "necessary condition R09.7, and the value it computes (C04)")
     rep.trust("E5's model of Unit.equals/Dimension.scale/operators (documented in sa/decl.py)")
     rep.assume("literal text is the intended exact value (0.3048 is 3048/10000)")
